@@ -33,7 +33,7 @@ def decode_escapes(s, position=0):
     def decode_match(match):
         try:
             return codecs.decode(match.group(0), 'unicode-escape')
-        except UnicodeDecodeError:
+        except UnicodeError:
             raise exceptions.YaqlLexicalException(
                 '\\', position + match.start())
     return ESCAPE_SEQUENCE_RE.sub(decode_match, s)
